@@ -634,6 +634,15 @@ def family_naming():
                  Node(FUNC, deps=[(2, 'val')], has_err=True, has_cleanup=True, name=order[1]),
                  Node(FUNC, has_err=True, has_cleanup=True, name=order[0])]
         specs.append(Spec(nodes, (0, 'val'), naming='adversarial', label='types named %s, %s, %s returned together with a cleanup and an error, called in this order' % order, family='naming'))
+    # exactly one cleanup-returning provider (its variable is renamed because of the package-level cleanup),
+    # before / after a provider that can fail, plain-named types
+    for pos in (0, 1, 2):
+        flags = [(True, False), (True, False), (True, False)]
+        flags[pos] = (pos == 2, True) if pos == 2 else (False, True)
+        nodes = [Node(FUNC, deps=[(1, 'val')], has_err=flags[0][0], has_cleanup=flags[0][1], name='App'),
+                 Node(FUNC, deps=[(2, 'val')], has_err=flags[1][0], has_cleanup=flags[1][1], name='Conn'),
+                 Node(FUNC, has_err=flags[2][0], has_cleanup=flags[2][1], name='Conf')]
+        specs.append(Spec(nodes, (0, 'val'), naming='adversarial', label='exactly one cleanup-returning provider (position %d of 3) next to package-level err and cleanup' % pos, family='naming'))
     for nm_ in ('Cleanup', 'Err'):
         for he, hc in FLAGS[1:]:
             nodes = [Node(FUNC, has_err=he, has_cleanup=hc, name=nm_)]
@@ -1102,6 +1111,32 @@ def family_packages():
     specs.append(RawSpec(files, 'one injector using equally named sets (and functions) of two packages both named store', family='packages',
                          extra_pkgs={'primary/store': {'store.go': store(1, 'Primary')}, 'replica/store': {'store.go': store(2, 'Replica')}}))
     specs[-1].extra_props = ['C14']
+    # ... cleanup-returning providers of the same name in two packages of the same name, and a later provider that fails
+    def api(node, ty):
+        return ('package api\n\nimport "example.com/corpus/vrt"\n\ntype %s struct{ ID int }\n\n'
+                'func NewClient() (%s, func(), error) {\n\tid, err := vrt.Call(%d, true)\n\tif err != nil {\n\t\treturn %s{}, vrt.FailedCleanupFn(%d), err\n\t}\n\treturn %s{ID: id}, vrt.CleanupFn(%d), nil\n}\n' % (ty, ty, node, ty, node, ty, node))
+    files = {
+        'providers.go': ('package {PKG}\n\nimport (\n\t"example.com/corpus/vrt"\n\tv1 "example.com/corpus/{PKG}/v1/api"\n\tv2 "example.com/corpus/{PKG}/v2/api"\n)\n\ntype App struct{ ID int }\n\n'
+                         'func NewApp(a v1.ClientA, b v2.ClientB) (App, error) {\n\tid, err := vrt.Call(0, true, a.ID, b.ID)\n\tif err != nil {\n\t\treturn App{}, err\n\t}\n\treturn App{ID: id}, nil\n}\n'),
+        'wire.go': ('//go:build wireinject\n// +build wireinject\n\npackage {PKG}\n\nimport (\n\t"github.com/google/wire"\n\tv1 "example.com/corpus/{PKG}/v1/api"\n\tv2 "example.com/corpus/{PKG}/v2/api"\n)\n\n'
+                    'func Inject() (App, func(), error) {\n\tpanic(wire.Build(v1.NewClient, v2.NewClient, NewApp))\n}\n'),
+        'zz_driver.go': ('//go:build !wireinject\n// +build !wireinject\n\npackage {PKG}\n\nimport "example.com/corpus/vrt"\n\nfunc VDrive() {\n'
+                         '\tspec := &vrt.Spec{RetErr: true, RetCleanup: true, Nodes: []vrt.Node{{Name: "NewApp", Kind: vrt.KFunc, HasErr: true, Params: []vrt.Ref{{Node: 1}, {Node: 2}}}, {Name: "v1/api.NewClient", Kind: vrt.KFunc, HasErr: true, HasCleanup: true}, {Name: "v2/api.NewClient", Kind: vrt.KFunc, HasErr: true, HasCleanup: true}}, Result: []vrt.Ref{{Node: 0}}}\n'
+                         '\tfor round := 0; round < 2; round++ {\n\t\tvrt.Round = round\n\t\tvrt.Reset()\n\t\tspec.ArgIDs = make([][]int, 3)\n\t\tres, cleanup, err := Inject()\n'
+                         '\t\tout := vrt.Outcome{Result: []int{res.ID}}\n\t\tout.Cleanup = cleanup\n\t\tout.CleanupNil = cleanup == nil\n\t\tout.Err = err\n\t\tvrt.Check(spec, out)\n\t}\n}\n'),
+    }
+    specs.append(RawSpec(files, 'cleanup- and error-returning providers of one name in two packages of one name, followed by a provider that can fail', family='packages',
+                         extra_pkgs={'v1/api': {'api.go': api(1, 'ClientA')}, 'v2/api': {'api.go': api(2, 'ClientB')}}, compile_props=['C01', 'C03']))
+    specs[-1].extra_props = ['C03', 'C04', 'C14']
+    # ... an unused provider whose namesake in a package of the same name is used (C08)
+    files = {
+        'providers.go': 'package {PKG}\n\nimport v1 "example.com/corpus/{PKG}/v1/client"\n\ntype App struct{ ID int }\n\nfunc NewApp(c v1.C1) App { return App{} }\n',
+        'wire.go': ('//go:build wireinject\n// +build wireinject\n\npackage {PKG}\n\nimport (\n\t"github.com/google/wire"\n\tv1 "example.com/corpus/{PKG}/v1/client"\n\tv2 "example.com/corpus/{PKG}/v2/client"\n)\n\n'
+                    'func Inject() App {\n\tpanic(wire.Build(NewApp, v1.New, v2.New))\n}\n'),
+    }
+    extra = {'v1/client': {'c.go': 'package client\n\ntype C1 struct{}\n\nfunc New() C1 { return C1{} }\n'}, 'v2/client': {'c.go': 'package client\n\ntype C2 struct{}\n\nfunc New() C2 { return C2{} }\n'}}
+    sp = RawSpec(files, 'must be rejected: an unused provider whose namesake in an equally named package is used', expect='reject', reject_props=['C08'], family='packages', extra_pkgs=extra)
+    specs.append(sp)
     # ... a set that is ambiguous together with a direct provider, while an equally named set of an equally named
     # package (analysed first) is not (C05); and an ill-formed provider behind the name of a well-formed one (C09)
     files = {
